@@ -311,7 +311,10 @@ def main():
         cov['bounded_bound'] = 'see bounded/src/corpus.rs::describe(): ' + (
             'messages per scalar/structured value incl. boundary lengths, raw forms, token sequences <= 3 (quick) / 4 (thorough) over 16 tokens, '
             'full (tag x length 0-16,0xffff x fill) grid, every cut point, every single-fault (offset x 8 kinds), chunkings 1/2/3/7/whole, '
-            'every single cut with 0-2 not-ready results, Interrupted at every offset; add-sequences <= 4')
+            'every single cut with 0-2 not-ready results, Interrupted at every offset; add-sequences <= 4; names and strings of 1 / 255 / 256 / 257 / '
+            '1024 octets (65535 thorough), non-ASCII attribute and member names, names extending a leading attribute name, a 3000-octet value with '
+            'sampled cuts and lasting / single faults inside, every proper prefix through both front ends; C10: user and job names with white space, '
+            'upper case, non-ASCII, control characters, 300 octets; C02 stack: nesting 2000 / 40000 (60000 thorough) in child processes on a 2 MiB thread')
     bounded_fail = [(c, j['failure']) for c, j in (bres['results'].items() if bres and bres['results'] else []) if j['failure']]
 
     # ------------------------------------------------------------------ classify failures
